@@ -371,7 +371,76 @@ pub fn run(ctx: &Ctx) -> Report {
             machinery_error(&format!("C11 scale case {:?}: reference says {:?}", label, j.reference.error));
         }
     });
-    let st = st.merge(st_s);
+    let mut st = st.merge(st_s);
+
+    // (5) headers with well-known meaning: the Host value is bound byte for byte (ports, case, trailing dot), and
+    //     unsigned hop-by-hop / proxy / content headers are without influence
+    {
+        let hosts: Vec<&[u8]> = vec![
+            b"example.amazonaws.com", b"example.amazonaws.com:443", b"example.amazonaws.com:80", b"example.amazonaws.com:8443",
+            b"EXAMPLE.amazonaws.COM", b"example.amazonaws.com.", b"[::1]:443", b"example.amazonaws.com:443:443",
+        ];
+        let well_known: Vec<(&str, &[u8])> = vec![
+            ("X-Forwarded-Proto", b"http"), ("X-Forwarded-Proto", b"https"), ("X-Forwarded-For", b"10.0.0.1"), ("X-Forwarded-Host", b"other.example.com"),
+            ("X-Forwarded-Port", b"80"), ("Forwarded", b"proto=http;host=other"), ("Via", b"1.1 proxy"), ("X-Real-IP", b"10.0.0.2"),
+            ("Connection", b"close"), ("Content-Length", b"0"), ("Transfer-Encoding", b"chunked"), ("Expect", b"100-continue"),
+            ("X-HTTP-Method-Override", b"DELETE"), ("X-Amz-Content-Sha256", b"UNSIGNED-PAYLOAD"), ("Content-MD5", b"1B2M2Y8AsgTpgAmY7PhCfg=="),
+            ("Content-Encoding", b"gzip"), ("Range", b"bytes=0-1"), ("Upgrade", b"h2c"), ("X-Amz-Expires", b"60"), ("Cookie", b"a=b"),
+            ("User-Agent", b"aws-sdk"), ("Origin", b"https://evil.example"), ("X-Original-URL", b"/admin"), ("X-Rewrite-URL", b"/admin"),
+        ];
+        let mut cases: Vec<(String, WireReq, Option<bool>, Option<String>)> = Vec::new(); // label, request, must accept?, same-outcome-as label
+        let mut signed_wires: Vec<(usize, WireReq)> = Vec::new();
+        for (hi, h) in hosts.iter().enumerate() {
+            for carrier in [Carrier::Header, Carrier::Query] {
+                let mut plan = e2e::base_plan(carrier);
+                plan.headers = vec![("Host".into(), h.to_vec())];
+                let w = WireReq::from_wire(&build(&plan).wire);
+                cases.push((format!("host {:?} signed literally ({:?})", String::from_utf8_lossy(h), carrier), w.clone(), Some(true), None));
+                if carrier == Carrier::Header {
+                    signed_wires.push((hi, w.clone()));
+                }
+                // every well-known unsigned header added: same outcome
+                for (n, v) in &well_known {
+                    let mut x = w.clone();
+                    x.headers.insert(1, (n.to_string(), v.to_vec()));
+                    cases.push((format!("host {:?} + unsigned {}: {}", String::from_utf8_lossy(h), n, String::from_utf8_lossy(v)), x, Some(true), None));
+                }
+            }
+        }
+        // a signature made for one Host value presented with another
+        for (hi, w) in &signed_wires {
+            for (hj, h2) in hosts.iter().enumerate() {
+                if *hi != hj {
+                    let mut x = w.clone();
+                    for hd in x.headers.iter_mut() {
+                        if hd.0 == "Host" {
+                            hd.1 = h2.to_vec();
+                        }
+                    }
+                    cases.push((format!("signature for host #{} presented with host {:?}", hi, String::from_utf8_lossy(h2)), x, Some(false), None));
+                }
+            }
+        }
+        let n5 = cases.len() as u64;
+        let st5 = par_sweep(n5, |i, st| {
+            let (label, w, must, _) = &cases[i as usize];
+            let c = Case { wire: w.clone(), cfg: cfg.clone(), prov: ProvSpec::standard() };
+            let before = st.violations.len();
+            let j = e2e::judge_into(n_bases * 1000 + 500_000 + i, &c, st);
+            st.nontrivial(&(&c.wire, "well-known"));
+            if st.violations.len() > before {
+                if let Some(v) = st.violations.last_mut() {
+                    v.what = format!("well-known-header:{}:{}", label, v.what);
+                }
+            }
+            if let Some(m) = must {
+                if j.reference.accepted() != *m {
+                    machinery_error(&format!("C11 well-known case {:?}: reference says {:?}", label, j.reference.error));
+                }
+            }
+        });
+        st = st.merge(st5);
+    }
 
     // (3b) the same differential on refused bases
     let refused = refused_bases();
@@ -409,7 +478,7 @@ pub fn run(ctx: &Ctx) -> Report {
     Report {
         stats: st,
         rule: format!(
-            "{} base requests: x-a with every list of 0..2 values over 14 values (spaces outside/inside, empty, comma, 0xE9, quoted, inner/outer/double tabs, values beginning/ending in bytes 0x85 / 0xA0) x x-b (none, one, two values) x content-type (absent/present) x every signed subset of {{x-a, x-b, content-type, x-amz-date}} x 3 arrival orders x 3 name-case styles, header carrier and (1 in 5) query carrier; (1) accepted, canonical request bytes equal to the reference's; (2) on every {} base, every single edit of a signed header (insertion of 4 bytes at every position, deletion and 3 substitutions at every position, value added/removed, two values swapped, value moved to another signed name) with the old signature: Ok iff the reference header block is unchanged; (3) every insertion position of an unsigned header, removal/modification/extra value of every unsigned one, every rotation of the header groups: identical outcome; the same insertions on {} refused bases; (4) a thrice-repeated signed header among 12..100 header lines in 4 arrangements: accepted, refused once two signed values are swapped, unaffected by removing unsigned lines (each 8 times). states = distinct reference canonical requests",
+            "{} base requests: x-a with every list of 0..2 values over 14 values (spaces outside/inside, empty, comma, 0xE9, quoted, inner/outer/double tabs, values beginning/ending in bytes 0x85 / 0xA0) x x-b (none, one, two values) x content-type (absent/present) x every signed subset of {{x-a, x-b, content-type, x-amz-date}} x 3 arrival orders x 3 name-case styles, header carrier and (1 in 5) query carrier; (1) accepted, canonical request bytes equal to the reference's; (2) on every {} base, every single edit of a signed header (insertion of 4 bytes at every position, deletion and 3 substitutions at every position, value added/removed, two values swapped, value moved to another signed name) with the old signature: Ok iff the reference header block is unchanged; (3) every insertion position of an unsigned header, removal/modification/extra value of every unsigned one, every rotation of the header groups: identical outcome; the same insertions on {} refused bases; (4) a thrice-repeated signed header among 12..100 header lines in 4 arrangements: accepted, refused once two signed values are swapped, unaffected by removing unsigned lines (each 8 times); (5) 8 Host spellings (ports 443/80/8443, upper case, trailing dot, IPv6, doubled port) signed literally on both carriers, each with 24 well-known unsigned hop-by-hop / proxy / content headers added, and every signature presented with every other Host value. states = distinct reference canonical requests",
             n_bases, if edit_stride == 1 { "" } else { "third" }, n_ref
         ),
         bounds: json!({"bases": n_bases, "edit_stride": edit_stride}),
